@@ -8,6 +8,9 @@ D = "dictof(self._TestCase__details)"
 def register(R):
     register_reporting(R)
     register_outcomes(R)
+    register_xfail(R)
+    register_gather(R)
+    register_assertions(R)
     R.shape("ExcHandler", __call__=dict(event=True, returns="any"))        # addOnException handler: called, does not raise (documented)
     R.shape("RunTestFactory", __call__=dict(event=True, returns="ARunTest", exsures=["True"]))
     R.shape("ARunTest", run=dict(event=True, returns="any", exsures=["True"]))
@@ -22,6 +25,8 @@ def register(R):
                ensures=["result is self._TestCase__details", "self._TestCase__details is not None",
                         "implies(old(self._TestCase__details) is not None, self._TestCase__details is old(self._TestCase__details) and %s == old(%s))" % (D, D),
                         "implies(old(self._TestCase__details) is None, not allocated(result) and %s == {})" % D])
+    R.define("det_id_", ["s"], "implies(old(s._TestCase__details) is not None, s._TestCase__details is old(s._TestCase__details)) and "
+             "implies(old(s._TestCase__details) is None, s._TestCase__details is None or not allocated(s._TestCase__details))")
     R.define("D0_", ["s"], "ite(old(s._TestCase__details) is None, mapof({}), old(dictof(s._TestCase__details)))")
     R.contract(T_ + "addDetail", props=["C05"], params={"name": "any", "content_object": "any"},
                modifies=["self._TestCase__details", "dict(self._TestCase__details)"],
@@ -34,7 +39,10 @@ def register(R):
     R.contract(T_ + "addDetailUniqueName", props=["C05", "C07"], params={"name": "any", "content_object": "any"},
                modifies=["self._TestCase__details", "dict(self._TestCase__details)"],
                ensures=["exists(lambda vn: kwget(D0_(self), vn) is absent() and %s == store(D0_(self), vn, content_object) and "
-                        "implies(kwget(D0_(self), name) is absent(), vn == name))" % D],
+                        "implies(kwget(D0_(self), name) is absent(), vn == name))" % D,
+                        "self._TestCase__details is not None",
+                        "implies(old(self._TestCase__details) is not None, self._TestCase__details is old(self._TestCase__details))",
+                        "implies(old(self._TestCase__details) is None, not allocated(self._TestCase__details))"],
                loops={0: dict(invariant=["existing_details is self._TestCase__details", "self._TestCase__details is not None",
                                          "%s == D0_(self)" % D,
                                          "implies(old(self._TestCase__details) is not None, self._TestCase__details is old(self._TestCase__details))",
@@ -61,7 +69,7 @@ def register_reporting(R):
                requires=["self._traceback_id_gens is not self._TestCase__details"],
                modifies=["self._TestCase__details", "dict(self._TestCase__details)", "dict(self._traceback_id_gens)", "f:n"],
                ensures=["exists(lambda vn, rc: kwget(D0_(self), vn) is absent() and not allocated(rc) and typeof_is(rc, TracebackContent) and "
-                        "%s == store(D0_(self), vn, rc))" % D],
+                        "%s == store(D0_(self), vn, rc))" % D, "det_id_(self)", "self._TestCase__details is not None"],
                loops={0: dict(invariant=["self._TestCase__details is old(self._TestCase__details) or "
                                          "(old(self._TestCase__details) is None and (self._TestCase__details is None or not allocated(self._TestCase__details)))",
                                          "implies(self._TestCase__details is not None, %s == D0_(self))" % D,
@@ -72,7 +80,7 @@ def register_reporting(R):
                requires=["self._traceback_id_gens is not self._TestCase__details"], context={"Hloop": "HIST()"},
                frame_hist=True,
                modifies=["self._TestCase__details", "dict(self._TestCase__details)", "dict(self._traceback_id_gens)", "f:n", "$hist"],
-               ensures=["HIST() == deliver(old(HIST()), %s, call('__call__', [exc_info], {}), len(%s))" % (HH, HH),
+               ensures=["HIST() == deliver(old(HIST()), %s, call('__call__', [exc_info], {}), len(%s))" % (HH, HH), "det_id_(self)",
                         "implies(exc_info[0] is self.skipException or exc_info[0] is _UnexpectedSuccess or exc_info[0] is _ExpectedFailure,"
                         " self._TestCase__details is old(self._TestCase__details) and implies(self._TestCase__details is not None, %s == D0_(self)))" % D,
                         "implies(not (exc_info[0] is self.skipException or exc_info[0] is _UnexpectedSuccess or exc_info[0] is _ExpectedFailure),"
@@ -110,3 +118,87 @@ def register_outcomes(R):
                         "ev_name(hlast(hist(self._TestCase__RunTest))) == '__call__'",
                         "ev_args(hlast(hist(self._TestCase__RunTest)))[0] is self",
                         "ev_args(hlast(hist(self._TestCase__RunTest)))[1] is self.exception_handlers"])
+
+
+def register_xfail(R):
+    # the @unittest.expectedFailure wrapper (nested function; `func` is its free variable: the bound test method)
+    R.function("did_raise", ["val"], "bool")
+    R.function("raised_by", ["val"], "val")
+    R.shape("TestMethodFn", __call__=dict(event=True, returns="any", ensures=["not did_raise(self)"],
+                                          exsures=["did_raise(self)", "exc is raised_by(self)"]))
+    R.fields_of("TestMethodFn", __self__="maybe TestCase")
+    R.contract(TC + "_expectedFailure.<wrapper>", props=["C01", "C05"], params={"args": "tuple", "kwargs": "dict"},
+               ghost_params={"func": "TestMethodFn"},
+               requires=["implies(fieldof(func, '__self__') is not absent(), "
+                         "astype(fieldof(func, '__self__'), 'TestCase')._traceback_id_gens is not astype(fieldof(func, '__self__'), 'TestCase')._TestCase__details)"],
+               modifies=["$hist", "f:_TestCase__details", "$dict", "f:n"],
+               ensures=["False"],        # it always raises
+               exsures=[
+                   # the test method returned: unexpected success
+                   "implies(not did_raise(func), typeof_is(exc, _UnexpectedSuccess))",
+                   # it raised an Exception: expected failure
+                   "implies(did_raise(func) and isinstance(raised_by(func), Exception), typeof_is(exc, _ExpectedFailure))",
+                   # anything else (KeyboardInterrupt, SystemExit) is NOT an expected failure: it propagates unchanged
+                   "implies(did_raise(func) and not isinstance(raised_by(func), Exception), exc is raised_by(func))"])
+
+
+def register_gather(R):
+    # a content object of any provenance: iter_bytes() yields its current chunks (ghost bytes_now), which may change over time
+    R.function("bytes_now", ["val", "harr"], "seq")
+    R.shape("SrcContent", iter_bytes=dict(signature="", returns="iter", pure=True))
+    R.fields_of("SrcContent", content_type="ContentType")
+    # _copy_content: a snapshot -- new Content, same type, the chunks obtained now, held in a list nobody else has
+    R.contract(TC + "_copy_content", props=["C05", "C16"], params={"content_object": "SrcContent"}, pure=True, returns="Content",
+               ensures=["not allocated(ret)", "ret.content_type is content_object.content_type",
+                        "is_ref(ret._get_bytes) and not allocated(ret._get_bytes)",
+                        "not allocated(ret._get_bytes.buf)"])
+    # gather_details: every source detail arrives under a name that was free (renamed on collision), nothing already in the
+    # target is dropped or overwritten; one new entry per source entry (loop body contract)
+    R.contract(TC + "gather_details", props=["C05"], params={"source_dict": "dict[any=>SrcContent]", "target_dict": "dict"},
+               requires=["source_dict is not target_dict"],
+               modifies=["dict(target_dict)"],
+               ensures=["forall(lambda vk: implies(old(kwget(dictof(target_dict), vk)) is not absent(), kwget(dictof(target_dict), vk) == old(kwget(dictof(target_dict), vk))))",
+                        "dictof(source_dict) == old(dictof(source_dict))"],
+               loops={0: dict(invariant=["forall(lambda vk: implies(old(kwget(dictof(target_dict), vk)) is not absent(), kwget(dictof(target_dict), vk) == old(kwget(dictof(target_dict), vk))))",
+                                         "dictof(source_dict) == old(dictof(source_dict))", "frame_ok('f:n')"],
+                              body_ensures=["iter0(kwget(dictof(target_dict), name)) is absent()",
+                                            "dictof(target_dict) == store(iter0(dictof(target_dict)), name, kwget(dictof(target_dict), name))",
+                                            "is_ref(kwget(dictof(target_dict), name)) and not allocated(kwget(dictof(target_dict), name))",
+                                            "astype(kwget(dictof(target_dict), name), 'Content').content_type is content_object.content_type"]),
+                      1: dict(invariant=["frame_ok('f:n')"])})
+
+
+def register_assertions(R):
+    H = "testtools.matchers._higherorder:"
+    I = "testtools.matchers._impl:"
+    R.fields_of("MismatchDecorator", original="AMismatch")
+    R.fields_of("MismatchError", matchee="any", matcher="any", mismatch="any", verbose="any", args="tuple")
+    R.inline_when_fresh(I + "MismatchDecorator.get_details", I + "MismatchDecorator.describe")
+    R.inline_fn(H + "Annotate.if_message")
+    R.contract("testtools.content:StacktraceContent", assumed=True,
+               params={"prefix_content": "any", "postfix_content": "any"}, pure=True, returns="Content", ensures=["not allocated(ret)"])
+    KEPT = "forall(lambda vk: implies(kwget(D0_(self), vk) is not absent(), self._TestCase__details is not None and kwget(%s, vk) == kwget(D0_(self), vk)))" % D
+    # _matchHelper: None iff the matcher matches; otherwise a MismatchError for exactly this mismatch, and every detail of the
+    # mismatch is attached under a non-clobbering name (loop body = addDetailUniqueName's contract)
+    R.contract(T_ + "_matchHelper", props=["C07", "C05"], params={"matchee": "any", "matcher": "AMatcher", "message": "any", "verbose": "any"},
+               modifies=["self._TestCase__details", "dict(self._TestCase__details)"], returns="any",
+               ensures=["(ret is None) == holds(matcher, matchee)",
+                        "implies(ret is not None, typeof_is(ret, MismatchError) and not allocated(ret) and astype(ret, 'MismatchError').matchee is matchee "
+                        "and astype(ret, 'MismatchError').verbose is verbose)",
+                        "implies(ret is None, self._TestCase__details is old(self._TestCase__details))",
+                        "det_id_(self)", KEPT],
+               loops={0: dict(invariant=[KEPT, "implies(old(self._TestCase__details) is not None, self._TestCase__details is old(self._TestCase__details))",
+                                         "implies(old(self._TestCase__details) is None, self._TestCase__details is None or not allocated(self._TestCase__details))"])})
+    # assertThat raises MismatchError exactly when match() returns a mismatch
+    R.contract(T_ + "assertThat", props=["C07"], params={"matchee": "any", "matcher": "AMatcher", "message": "any", "verbose": "any"},
+               modifies=["self._TestCase__details", "dict(self._TestCase__details)"],
+               exsures=["not holds(matcher, matchee)", "typeof_is(exc, MismatchError)", KEPT],
+               ensures=["holds(matcher, matchee)"])
+    # expectThat never raises; on a mismatch the test is forced to fail once it has finished, and nothing attached so far is lost
+    R.contract(T_ + "expectThat", props=["C07", "C03", "C05"], params={"matchee": "any", "matcher": "AMatcher", "message": "any", "verbose": "any"},
+               modifies=["self._TestCase__details", "dict(self._TestCase__details)", "self.force_failure"],
+               ensures=["implies(not holds(matcher, matchee), self.force_failure == True)",
+                        "implies(holds(matcher, matchee), self.force_failure == old(self.force_failure))",
+                        KEPT])
+    R.contract("testtools.assertions:assert_that", props=["C07"], params={"matchee": "any", "matcher": "AMatcher", "message": "any", "verbose": "any"},
+               pure=True, exsures=["not holds(matcher, matchee)", "typeof_is(exc, MismatchError)"], ensures=["holds(matcher, matchee)"])
